@@ -243,7 +243,8 @@ where
 
         let mut last_state = self.positions.clone();
 
-        let mut last_state_data = last_state.to_data();
+        // The backend's float type need not be `T`: hand the tracker the data converted to `T`.
+        let mut last_state_data = last_state.to_data().convert::<T>();
         if let Err(e) = tracker.step(last_state_data.as_slice::<T>().unwrap()) {
             eprintln!("Warning: Shown progress statistics may be unreliable since updating them failed with: {}", e);
         }
@@ -262,7 +263,7 @@ where
             pb.inc(1);
             last_state = current_state;
 
-            last_state_data = last_state.to_data();
+            last_state_data = last_state.to_data().convert::<T>();
             if let Err(e) = tracker.step(last_state_data.as_slice::<T>().unwrap()) {
                 eprintln!("Warning: Shown progress statistics may be unreliable since updating them failed with: {}", e);
             }
